@@ -56,7 +56,8 @@ def run(ctx):
     good = []
     if cache:
         stats["reused_c01_runs"] = True
-        pkgs = pipeline.generate(cache["seed"], cache["npk"], cache["nprog"])
+        pkgs = pipeline.all_packages(cache["seed"], cache["npk"], cache["nprog"], ctx.tier)
+        pkgs = [(n, g) for n, g in pkgs if n in cache["results"]]
         dirs = {n: os.path.join(os.path.dirname(ctx.work), "C01", "pkgs", n) for n, _ in pkgs}
         good, failures = c01.collect(ctx, pkgs, dirs, {n: cache["results"][n] for n, _ in pkgs}, stats)
         if failures:
